@@ -50,11 +50,17 @@ def fault_disp():
         st.builds(lambda t: {"b": "suspend_ok", "t": t}, times),
         st.builds(lambda t: {"b": "suspend_raise", "t": t}, times),
     )
+    # entering may start a background task of the resource (blocked until released) - before / while other disposables enter
+    enter_beh = st.one_of(
+        beh, beh, beh, beh,
+        st.builds(lambda g: {"b": "ok", "spawn": g}, st.integers(0, 3)),
+        st.builds(lambda g, t: {"b": "suspend_ok", "t": t, "spawn": g}, st.integers(0, 3), times),
+    )  # fmt: skip
     ys = st.one_of(st.none(), P.sv_strategy(), st.lists(P.sv_strategy(), min_size=1, max_size=2))
     # an exit that returns True ("handled") must not make the scope swallow anything
     exit_beh = st.one_of(beh, beh, beh, st.just({"b": "ok", "ret": True}))
     return st.builds(
-        lambda e, y, x, a: {"enter": e, "yields": y, "exit": x, "as": a}, beh, ys, exit_beh, st.sampled_from(["list", "list", "iter"])
+        lambda e, y, x, a: {"enter": e, "yields": y, "exit": x, "as": a}, enter_beh, ys, exit_beh, st.sampled_from(["list", "list", "iter"])
     )
 
 
@@ -65,7 +71,7 @@ def program(disp_faults: bool = True, body_raises: bool = True, max_leaves: int 
     probe = st.just({"k": "probe", "lookups": [], "fp": True})
     sleep = st.builds(lambda t: {"k": "sleep", "t": t}, st.sampled_from([0.25, 0.5, 1, 2]))
     spawn = st.builds(lambda v, b: {"k": "spawn", "via": v, "body": b}, st.sampled_from(["ctx", "ctx", "ctx", "asyncio"]), task_body(1))
-    raise_ = st.builds(lambda e: {"k": "raise", "exc": e}, st.sampled_from(["Exception", "ExcSubclass", "BaseExc", "FalsyExc", "GenExit"]))
+    raise_ = st.builds(lambda e: {"k": "raise", "exc": e}, st.sampled_from(["Exception", "ExcSubclass", "BaseExc", "FalsyExc", "GenExit", "OwnCancelled"]))
     leaf_ops = st.one_of(probe, sleep, spawn, spawn, st.just({"k": "yield"}))
     disp = fault_disp() if disp_faults else P.simple_disp_strategy()
 
@@ -118,6 +124,8 @@ def all_gates(ops, acc=None):
             for ph in ("enter", "exit"):
                 if "gate" in d[ph]:
                     acc.add(d[ph]["gate"])
+                if d[ph].get("spawn") is not None:
+                    acc.add(d[ph]["spawn"])
     return acc
 
 
